@@ -127,15 +127,39 @@ func (p *c19) build(seed uint64, tier string) []C19Scenario {
 						add(s)
 					}
 				}
-				for _, st := range steps {
+				for si, st := range steps {
 					if st.only != nil && !st.only() {
 						continue
 					}
-					for _, fk := range failKinds {
+					for fi, fk := range failKinds {
 						s := base()
 						s.Step = st.label
 						s.Server.Rules = []refsmtpd.Rule{{Verb: st.verb, Nth: st.nth, Action: fk}}
 						add(s)
+						// a second fault on the clean-up path of the first: the QUIT / RSET that follows
+						// a failure is refused, dropped or garbled as well (thorough: every pair;
+						// quick: a rotating sample)
+						if st.verb == "QUIT" {
+							continue
+						}
+						for ci, cl := range []refsmtpd.Rule{
+							{Verb: "QUIT", Nth: 1, Action: refsmtpd.Action{Code: 421, Text: "closing"}},
+							{Verb: "QUIT", Nth: 1, Action: refsmtpd.Action{Kind: "drop"}},
+							{Verb: "QUIT", Nth: 1, Action: refsmtpd.Action{Kind: "garbage"}},
+							{Verb: "RSET", Nth: 1, Action: refsmtpd.Action{Code: 451, Text: "cannot reset"}},
+							{Verb: "RSET", Nth: 1, Action: refsmtpd.Action{Kind: "drop"}},
+						} {
+							if tier != "thorough" && (si+fi+ci)%5 != 0 {
+								continue
+							}
+							if cl.Verb == "RSET" && op != "dialandsend" {
+								continue
+							}
+							s := base()
+							s.Step = st.label + "+" + cl.Verb
+							s.Server.Rules = []refsmtpd.Rule{{Verb: st.verb, Nth: st.nth, Action: fk}, cl}
+							add(s)
+						}
 					}
 				}
 				// EHLO and HELO both refused
@@ -356,7 +380,7 @@ func (p *c19) Shrink(scAny any) []any {
 
 func (p *c19) Info() PropInfo {
 	return PropInfo{
-		Rule: "enumeration: {DialWithContext, DialAndSend} x TLS policy {mandatory, opportunistic, none} x auth type x failing step (greeting, EHLO, EHLO+HELO, STARTTLS missing/refused, TLS handshake failure kinds, post-TLS EHLO, AUTH missing/mechanism missing/bad password/each AUTH step, NOOP, MAIL, each RCPT, DATA, end-of-data, RSET, QUIT) x failure kind {421, 451, 550, 554, disconnect, garbage reply, reply-then-close}; a case is non-trivial when a failure is injected; distinct = distinct (op, policy, auth, step, rule, error class)",
+		Rule: "enumeration: {DialWithContext, DialAndSend} x TLS policy {mandatory, opportunistic, none} x auth type x failing step (greeting, EHLO, EHLO+HELO, STARTTLS missing/refused, TLS handshake failure kinds, post-TLS EHLO, AUTH missing/mechanism missing/bad password/each AUTH step, NOOP, MAIL, each RCPT, DATA, end-of-data, RSET, QUIT) x failure kind {421, 451, 550, 554, disconnect, garbage reply, reply-then-close}, each also combined with a second fault on the clean-up path (QUIT refused / dropped / garbled, RSET refused / dropped; thorough: all pairs, quick: every fifth), and connections made through the fallback port; a case is non-trivial when a failure is injected; distinct = distinct (op, policy, auth, step, rule, error class)",
 		Assumptions: []string{"the connection handed out by the dial function is the only transport resource; Close on it is what 'closed' means (for TLS-wrapped connections the underlying simulated connection's Close counts)",
 			"calls that never return are not judged here (C17)"},
 		Real:    []string{"github.com/wneessen/go-mail (Client, smtp.Client, all SASL mechanisms)", "net/textproto", "crypto/tls on both ends"},
